@@ -656,6 +656,64 @@ class NestedPostprocessingFromDict(_NestedItems):
         return {"self": ClassRef(I.E.index.lookup("sigma.processing.postprocessing:NestedQueryPostprocessingTransformation")), "args": [{"items": [doc(case, "p")]}]}
 
 
+class _NestedPostInit(Contract):
+    """the constructors of the nest transformations (the route a `type: nest` entry of a pipeline document takes: _instantiate_transformation
+    calls the class with the document's `items`) have no access to the caller's arguments - whatever they load from a dict is loaded with
+    non-granting defaults, and nothing that could carry a variables file is loaded without the directories in force"""
+    props = ("C16",)
+    cases = (True, False)
+    loader, itemcls, kw = None, None, None
+
+    def setup(self, E):
+        capture_constructors(E)
+        capture_item_loaders(E)
+        built = []
+        E._c16_built = built
+        E.summaries["sigma.processing.pipeline:ProcessingPipeline"] = lambda I, so, a, k: (built.append((list(a), dict(k))), SObj("NestedPipeline", {}))[1]
+
+    def args(self, I, case):
+        idx = I.E.index
+        obj = SObj(idx.lookup(f"sigma.processing.pipeline:{self.itemcls}"), {}, lazy=True)
+        d = doc(case, "t")
+        me = SObj(idx.lookup(self.target.split(".__post_init__")[0]), {}, lazy=True)
+        items = [obj, d]
+        if self.kw == "postprocessing_items":
+            me.fields["items"] = items
+            return {"self": me, "args": [], "items": items}
+        return {"self": me, "args": [items], "items": items}
+
+    def post(self, I, inp, r):
+        c = I.ctx
+        calls = list(I.E._c16_calls)
+        for name, cls, a, k in calls:
+            c.require(name == self.loader, "only the item loader of this kind is used")
+            c.require(no_taint(I, k) and not k.get("allow_external_sources") and not k.get("allow_template_vars"), "an item loaded by the constructor gets no capability (the constructor cannot know the caller's opt-in)")
+            if name == "QueryPostprocessingItem.from_dict":
+                c.require(k.get("vars_allowed_paths") is not None, "a post-processing item (it may be a template with a variables file) is not loaded without the allowed directories in force - "
+                          "the constructor has no access to them, so the item would be unrestricted once the environment variable allows variables files")
+        c.require(len(I.E._c16_built) == 1, "one nested pipeline is built")
+
+    def raises(self, I, inp, exc):
+        I.ctx.require(exc_is(I, exc, "SigmaConfigurationError") or exc_is(I, exc, "TypeError"), f"only a configuration / type error (got {exc_name(exc)})", kind="SAFE")
+
+    def frame_ok(self, I, inp, obj, name):
+        return obj is inp["self"] and name in ("_nested_pipeline", "items")
+
+
+@register
+class NestedProcessingPostInit(_NestedPostInit):
+    id = "C16.NestedProcessingTransformation.__post_init__"
+    target = "sigma.processing.transformations.meta:NestedProcessingTransformation.__post_init__"
+    loader, itemcls, kw = "ProcessingItem.from_dict", "ProcessingItem", "items"
+
+
+@register
+class NestedPostprocessingPostInit(_NestedPostInit):
+    id = "C16.NestedQueryPostprocessingTransformation.__post_init__"
+    target = "sigma.processing.postprocessing:NestedQueryPostprocessingTransformation.__post_init__"
+    loader, itemcls, kw = "QueryPostprocessingItem.from_dict", "QueryPostprocessingItem", "postprocessing_items"
+
+
 @register
 class PipelineFromYaml(Contract):
     """from_yaml: capabilities are exactly the caller's arguments (defaults: nothing granted); when no base directories are given
